@@ -554,7 +554,7 @@ fn fuzz_stage(m: &PropMeta, target: &str, runs: u64, seed: u64, work: &Path) -> 
             .env("TUV_WORK", work.join(format!("fz{j}")))
             .stdin(Stdio::null())
             .stdout(Stdio::null())
-            .stderr(Stdio::piped())
+            .stderr(std::fs::File::create(work.join(format!("fuzz-{target}-{j}.log"))).map(Stdio::from).unwrap_or_else(|_| Stdio::null()))
             .spawn();
         match child {
             Ok(c) => procs.push((j, c, corpus, artifacts)),
@@ -565,9 +565,9 @@ fn fuzz_stage(m: &PropMeta, target: &str, runs: u64, seed: u64, work: &Path) -> 
     let mut corpus_size = 0usize;
     let mut crashes = 0;
     let mut cov = 0u64;
-    for (_j, c, corpus, artifacts) in procs {
-        let Ok(out) = c.wait_with_output() else { continue };
-        let text = String::from_utf8_lossy(&out.stderr).to_string();
+    for (j, mut c, corpus, artifacts) in procs {
+        let Ok(status) = c.wait() else { continue };
+        let text = std::fs::read_to_string(work.join(format!("fuzz-{target}-{j}.log"))).unwrap_or_default();
         let mut this = 0u64;
         for l in text.lines() {
             if let Some(r) = l.strip_prefix("stat::number_of_executed_units:") {
@@ -604,7 +604,7 @@ fn fuzz_stage(m: &PropMeta, target: &str, runs: u64, seed: u64, work: &Path) -> 
                 }
             }
         }
-        if !out.status.success() && this == 0 && !text.contains("Done ") {
+        if !status.success() && this == 0 && !text.contains("Done ") {
             let tail: String = text.lines().rev().take(4).collect::<Vec<_>>().join(" | ");
             if crashes == 0 {
                 inc.push(format!("fuzz instance of {target} failed to run: {tail}"));
